@@ -222,6 +222,59 @@ XPathProcessorImpl::tokenize(const XalanDOMString&  pat)
 
     XalanDOMString&     theToken = theGuard.get();
 
+    // The operators '!=', '<=', '>=', '//' and '::' are put on the queue
+    // as two tokens each, and a variable reference as '$' and the name.  The
+    // parser cannot tell whether white space stood between the two, where
+    // none is allowed ("1 ! = 2", "/ /a", "child: :a", "$ v"), so look for
+    // that here.
+    {
+        XalanDOMChar    thePrevious = 0;
+        bool            fSpace = false;
+
+        for(t_size_type i = 0; i < nChars; ++i)
+        {
+            const XalanDOMChar  c = pat[i];
+
+            if (c == XalanUnicode::charQuoteMark ||
+                c == XalanUnicode::charApostrophe)
+            {
+                // Skip the literal.  The tokenizer proper reports one
+                // that is not terminated.
+                for(++i; i < nChars && pat[i] != c; ++i)
+                {
+                }
+
+                thePrevious = c;
+                fSpace = false;
+            }
+            else if (isXMLWhitespace(c) == true)
+            {
+                fSpace = true;
+            }
+            else
+            {
+                if (fSpace == true &&
+                    ((c == XalanUnicode::charEqualsSign &&
+                      (thePrevious == XalanUnicode::charExclamationMark ||
+                       thePrevious == XalanUnicode::charLessThanSign ||
+                       thePrevious == XalanUnicode::charGreaterThanSign)) ||
+                     (c == XalanUnicode::charSolidus &&
+                      thePrevious == XalanUnicode::charSolidus) ||
+                     (c == XalanUnicode::charColon &&
+                      thePrevious == XalanUnicode::charColon) ||
+                     thePrevious == XalanUnicode::charDollarSign))
+                {
+                    error(
+                        XalanMessages::UnexpectedTokenFound_1Param,
+                        XalanDOMString(1, c, m_constructionContext->getMemoryManager()));
+                }
+
+                thePrevious = c;
+                fSpace = false;
+            }
+        }
+    }
+
     for(t_size_type i = 0; i < nChars; i++)
     {
         XalanDOMChar    c = pat[i];
